@@ -174,7 +174,10 @@ func c16Pool(rng *rand.Rand, arity, size int) [][]string {
 			a, b, c2 := []string{"x", ""}[rng.Intn(2)], []string{"y", "", "\\"}[rng.Intn(3)], []string{"z", ""}[rng.Intn(2)]
 			u := append([]string(nil), t...)
 			w := append([]string(nil), t...)
-			if rng.Intn(2) == 0 { // ("x\x1fs:y","z") vs ("x","y\x1fs:z")
+			if k := rng.Intn(3); k == 2 { // the escape byte itself unescaped: ("x\\", "y\x1fs:z") vs ("x\x1fs:y\\", "z")
+				u[i], u[i+1] = c04ValTok(a+"\\", true), c04ValTok(b+"\x1fs:"+c2, true)
+				w[i], w[i+1] = c04ValTok(a+"\x1fs:"+b+"\\", true), c04ValTok(c2, true)
+			} else if k == 0 { // ("x\x1fs:y","z") vs ("x","y\x1fs:z")
 				u[i], u[i+1] = c04ValTok(a+"\x1fs:"+b, true), c04ValTok(c2, true)
 				w[i], w[i+1] = c04ValTok(a, true), c04ValTok(b+"\x1fs:"+c2, true)
 			} else { // escape-byte siblings
@@ -258,7 +261,10 @@ func (c16) Gen(rng *rand.Rand, tier string, idx int) Case {
 		}
 	case "sql":
 		c.Cfg = append(c.Cfg, []string{"jt", []string{"inner", "left"}[rng.Intn(2)]},
-			[]string{"salias", strconv.Itoa(rng.Intn(2))}, []string{"talias", strconv.Itoa(rng.Intn(2))},
+			// talias 2: the table alias is `k`, a prefix of the stream's key columns k0, k1, …; envelope 1: the stream
+			// rows also carry top-level fields named like the aliases (`meta`, `m`, `k`, `s`)
+			[]string{"salias", strconv.Itoa(rng.Intn(2))}, []string{"talias", strconv.Itoa(rng.Intn(3))},
+			[]string{"envelope", strconv.Itoa(rng.Intn(3) / 2)},
 			[]string{"where", strconv.Itoa(rng.Intn(3) / 2)}, []string{"swap", strconv.Itoa(rng.Intn(4) / 3)},
 			// pre 1: an earlier LEFT JOIN with MORE ON pairs on an empty second table precedes the
 			// modelled JOIN (identity on the observed columns; exercises per-JOIN key construction)
@@ -394,6 +400,9 @@ func c16JoinSQL(c Case, arity int, sel, tail string) string {
 	if talias {
 		join, tp = "JOIN meta m", "m."
 	}
+	if c04CfgVal(c, "talias", "0") == "2" {
+		join, tp = "JOIN meta k", "k."
+	}
 	if c04CfgVal(c, "jt", "inner") == "left" {
 		join = "LEFT " + join
 	}
@@ -453,6 +462,12 @@ func c16SQL(c Case, arity int) [][][]string {
 			id, _ := strconv.Atoi(op[1])
 			row := c16Row("k", op[2:])
 			row["id"] = id
+			if c04CfgVal(c, "envelope", "0") == "1" {
+				// payload fields named like the aliases must not shadow the joined table row / the stream row
+				junk := map[string]interface{}{"pid": -7, "grp": 1, "t0": "junk", "id": -9}
+				row["meta"], row["m"], row["k"] = junk, junk, "junk"
+				row["s"] = map[string]interface{}{"id": -9, "k0": "junk"}
+			}
 			res, err := s.EmitSync(row)
 			switch {
 			case err != nil:
